@@ -42,7 +42,7 @@ class C15(Prop):
                "aioswitcher.api.remotes:SwitcherBreezeRemote._lookup_key_in_irset", "aioswitcher.api.remotes:SwitcherBreezeRemote._resolve_capabilities",
                "aioswitcher.api.remotes:SwitcherBreezeRemoteManager.get_remote", "aioswitcher.api.remotes:SwitcherBreezeCommand._get_command_length"]
     min_evaluations = {"quick": 300_000, "thorough": 5_000_000}
-    budget_s = {"quick": 120, "thorough": 1200}
+    budget_s = {"quick": 300, "thorough": 1200}
 
     async def setup(self, ctx):
         import aioswitcher.api.remotes as remotes
